@@ -52,6 +52,11 @@ class _Ctx:
         for n in ast.walk(fnode):
             if isinstance(n, ast.Assign) and len(n.targets) == 1 and isinstance(n.targets[0], ast.Name) and counts.get(n.targets[0].id) == 1:
                 self.single[n.targets[0].id] = n.value
+            # `lo, hi = nk`  reads as  lo = nk[0], hi = nk[1]
+            if isinstance(n, ast.Assign) and len(n.targets) == 1 and isinstance(n.targets[0], ast.Tuple) and isinstance(n.value, ast.Name) and all(isinstance(e, ast.Name) for e in n.targets[0].elts):
+                for k, e in enumerate(n.targets[0].elts):
+                    if counts.get(e.id) == 1:
+                        self.single[e.id] = ast.Subscript(value=ast.Name(id=n.value.id, ctx=ast.Load()), slice=ast.Constant(value=k), ctx=ast.Load())
         self.locals.discard("self")
         self.locals.discard("cls")
 
@@ -252,6 +257,8 @@ def r_boundary(pid):
         for r in rows:
             m = repo.mod(r["file"])
             f = m.functions.get(r["function"])
+            if f is not None:
+                f = repo.func(r["file"], r["function"])  # second view: private helpers expanded, temporaries folded
             key = "%s::%s::%s" % (r["file"], r["function"], r["expect"])
             for k, link in enumerate(row_links(r["expect"])):
                 linktxt = "%s %s %s" % (norm(link[0]), {ast.Lt: "<", ast.LtE: "<=", ast.Gt: ">", ast.GtE: ">=", ast.Eq: "==", ast.NotEq: "!="}[type(link[1])], norm(link[2]))
@@ -283,6 +290,15 @@ def r_boundary(pid):
                         out.report(r["file"], r["function"], "boundary %s" % linktxt, c[1].lineno, "%s tests `%s` where the boundary is `%s` (%s): same quantities, different cut [%s, expected %s]" % (r["function"], c[2], r["expect"], r["reason"], _show(c[0]), _show(res[2])))
                     else:
                         status = "absent"
+                        # evidence that the comparison is still made here, only differently: some comparison of the function
+                        # mentions one of the row's attributes / quantities.  With none, the test lives somewhere this rule does
+                        # not follow (a generator, another class): undecided, not a violation
+                        rowat = {a for a in _attrs_of(link[0]) + _attrs_of(link[2]) if a not in ("self",)}
+                        related = [c for c in ast.walk(f.node) if isinstance(c, ast.Compare) and rowat & set(_attrs_of(c))] if f is not None else []
+                        if f is not None and not related:
+                            out.inst(key + "::%d" % k, {"function": r["function"], "expect": linktxt, "status": "not found, no related comparison", "reason": r["reason"]}, nontrivial=False)
+                            out.undecide(r["file"], r["function"], "boundary %s" % linktxt, "no comparison of the function mentions any quantity of the row: the test is made where this rule does not follow")
+                            continue
                         near = ""
                         wa = set(_attrs_of(link[0]) + _attrs_of(link[2]))
                         scored = [(len(wa & set(_attrs_of(c[1]))), c) for c in here]
